@@ -97,3 +97,29 @@ def ea_verified(facts, fn, node):
                     if all(mentions(cc.args()[0], 'input') for cc in setters):
                         return True
     return False
+
+
+def reply_size_defined(chk, facts, rule, want):
+    """every function with a `std::size_t& out_size` in/out parameter (capacity of the output buffer on entry, size of the PDU to send on return) assigns it on every
+    path to its exit, directly or by handing it to a callee; `want(fn)` selects the functions this property answers for"""
+    seen = set()
+    for fn in facts.functions:
+        if fn.kind not in ('pattern', 'plain') or not want(fn) or (fn.q, fn.file, fn.line) in seen:
+            continue
+        ps = [p for p in fn.params if p['n'] and '&' in (p.get('t') or '') and 'const' not in (p.get('t') or '') and 'size_t' in (p.get('t') or '')]
+        if len(ps) != 1:
+            continue
+        seen.add((fn.q, fn.file, fn.line))
+        o = ps[0]['n']
+        defs = set()
+        for tgt, op, val, st in stores(fn.body):
+            if is_name(tgt, o) and op == '=':
+                defs.add(fn.block_of(st))
+        for c in fn.body.calls():
+            if any(is_name(a, o) for a in c.args()):
+                defs.add(fn.block_of(c))
+        ok = bool(defs) and not fn.paths_avoiding([fn.entry], fn.exit, defs)
+        chk.instance(rule, fn, '%s::%s: %s assigned on every path (%d assigning blocks)' % (fn.cls.split('::')[-1], fn.name, o, len(defs)), ok,
+                     '' if ok else 'a path through %s returns without assigning %s: the caller sends a PDU of the size of the whole output buffer with whatever it contains' % (fn.name, o),
+                     key='%s::%s/%d' % (fn.cls.split('::')[-1], fn.name, len(fn.params)))
+
